@@ -186,6 +186,8 @@ func isolationMatrix() []isoCell {
 	add("rule/enum/notIn", oneFieldBundle(fld("value", tRef(kEnum, "Color", "iso.v1.Color").with(func(t *jT) { t.Rules = &jRules{NotIn: []string{"GREEN"}} })), enumDecl("Color", "RED", "GREEN", "BLUE")))
 	add("rule/enum/notIn-unspecified", oneFieldBundle(fld("value", tRef(kEnum, "Color", "iso.v1.Color").with(func(t *jT) { t.Rules = &jRules{NotIn: []string{"UNSPECIFIED", "GREEN"}} })), enumDecl("Color", "RED", "GREEN", "BLUE")))
 	add("rule/enum/in-unspecified", oneFieldBundle(fld("value", tRef(kEnum, "Color", "iso.v1.Color").with(func(t *jT) { t.Rules = &jRules{In: []string{"UNSPECIFIED", "GREEN"}} })), enumDecl("Color", "RED", "GREEN", "BLUE")))
+	// an option that is not the first and whose name merely ends in UNSPECIFIED
+	add("decl/enum-later-option-named-unspecified", elemsBundle(&jElem{Decl: &jDecl{Kind: kEnum, Name: "Reason", Options: []string{"LATE", "LOST", "OTHER_UNSPECIFIED", "BROKEN"}}}, objDecl("Holder", fld("why", tRef(kEnum, "Reason", "iso.v1.Reason")))))
 	add("rule/enum-explicit-zero/in", oneFieldBundle(fld("value", tRef(kEnum, "Color", "iso.v1.Color").with(func(t *jT) { t.Rules = &jRules{In: []string{"RED", "BLUE"}} })), enumDecl("Color", "UNSPECIFIED", "RED", "GREEN", "BLUE")))
 	add("rule/enum-explicit-zero/notIn", oneFieldBundle(fld("value", tRef(kEnum, "Color", "iso.v1.Color").with(func(t *jT) { t.Rules = &jRules{NotIn: []string{"GREEN"}} })), enumDecl("Color", "UNSPECIFIED", "RED", "GREEN", "BLUE")))
 	// list rules
